@@ -4,6 +4,8 @@ import (
 	"bufio"
 	"compress/gzip"
 	"context"
+	"errors"
+	"io"
 	"os"
 
 	"github.com/specterops/dawgs/graph"
@@ -30,15 +32,16 @@ func (s BFSTreeFile) ReadEach(ctx context.Context, delegate func(next *Segment) 
 		} else {
 			defer gzipReader.Close()
 
-			scanner := bufio.NewScanner(gzipReader)
-			scanner.Split(bufio.ScanLines)
+			reader := bufio.NewReader(gzipReader)
 
-			for scanner.Scan() {
-				if err := scanner.Err(); err != nil {
+			for {
+				if nextSegment, err := UnmarshalSegmentRecord(reader); err != nil {
+					if errors.Is(err, io.EOF) {
+						break
+					}
+
 					return err
-				}
-
-				if shouldContinue, err := delegate(UnmarshalSegment(scanner.Bytes())); err != nil {
+				} else if shouldContinue, err := delegate(nextSegment); err != nil {
 					return err
 				} else if !shouldContinue {
 					break
@@ -78,11 +81,7 @@ func WriteZoneBFSTree(zoneNodes graph.NodeSet, ts Triplestore, scratchPath strin
 				func(segment *Segment) bool {
 					numPaths += 1
 
-					if err := MarshalSegment(segment, scratchFileWriter); err != nil {
-						panic(err)
-					}
-
-					if _, err := scratchFileWriter.Write([]byte("\n")); err != nil {
+					if err := MarshalSegmentRecord(segment, scratchFileWriter); err != nil {
 						panic(err)
 					}
 
